@@ -407,8 +407,40 @@ Definition datetime_duration (v : xdatetime) : pynum :=
       (pn_mul (PI (off_or_0 (dt_offset v))) K_OFFSET) in
   if negative then pn_neg total else total.
 
-(* Python comparison of two numbers that are both float here *)
-Definition time_lt (a b : xtime) : bool := pn_f (time_duration a) <? pn_f (time_duration b).
-Definition time_eq (a b : xtime) : bool := pn_f (time_duration a) =? pn_f (time_duration b).
-Definition datetime_lt (a b : xdatetime) : bool := pn_f (datetime_duration a) <? pn_f (datetime_duration b).
-Definition datetime_eq (a b : xdatetime) : bool := pn_f (datetime_duration a) =? pn_f (datetime_duration b).
+(* xsdata.utils.dates.date_ordinal (added by the repair of C06-F2): `mdays[1:month]` is the slice
+   of the month table, `month > 2 and isleap(year)` a bool added as 0/1; a negative slice bound counts from the end
+   (unvalidated values can be constructed directly). *)
+Definition sum_z (l : list Z) : Z := fold_right Z.add 0%Z l.
+Definition date_ordinal (year month day : Z) : Z :=
+  let prev := (year - 1)%Z in
+  let days := (prev * 365 + prev / 4 - prev / 100 + prev / 400)%Z in
+  let stop := if (month <? 0)%Z then Z.max 0 (Z.of_nat (length mdays) + month) else month in
+  let days := (days + (sum_z (firstn (Z.to_nat (stop - 1)) (skipn 1%nat mdays))
+                       + (if (2 <? month)%Z && isleap year then 1 else 0)%Z))%Z in
+  (days + day)%Z.
+
+(* datatype._timeline: the DS_* constants keep their Python number kind (all int on the pinned tree) *)
+Definition timeline_of (days h mi s f : Z) (o : option Z) : pynum :=
+  let seconds :=
+    pn_add (pn_add (pn_add (pn_add
+      (pn_mul (PI days) K_DAY)
+      (pn_mul (PI h) K_HOUR))
+      (pn_mul (PI mi) K_MINUTE))
+      (PI s))
+      (pn_mul (PI (off_or_0 o)) K_OFFSET) in
+  pn_add (pn_mul seconds (PI 1000000000%Z)) (PI f).
+Definition time_timeline (v : xtime) : pynum :=
+  timeline_of 0%Z (t_hour v) (t_minute v) (t_second v) (t_frac v) (t_offset v).
+Definition datetime_timeline (v : xdatetime) : pynum :=
+  timeline_of (date_ordinal (dt_year v) (dt_month v) (dt_day v))
+              (dt_hour v) (dt_minute v) (dt_second v) (dt_frac v) (dt_offset v).
+
+(* Python comparison of two numbers of the same kind (both sides are built from the same constants) *)
+Definition pn_ltb (a b : pynum) : bool :=
+  match a, b with PI x, PI y => (x <? y)%Z | _, _ => (pn_f a <? pn_f b)%float end.
+Definition pn_eqb (a b : pynum) : bool :=
+  match a, b with PI x, PI y => (x =? y)%Z | _, _ => (pn_f a =? pn_f b)%float end.
+Definition time_lt (a b : xtime) : bool := pn_ltb (time_timeline a) (time_timeline b).
+Definition time_eq (a b : xtime) : bool := pn_eqb (time_timeline a) (time_timeline b).
+Definition datetime_lt (a b : xdatetime) : bool := pn_ltb (datetime_timeline a) (datetime_timeline b).
+Definition datetime_eq (a b : xdatetime) : bool := pn_eqb (datetime_timeline a) (datetime_timeline b).
